@@ -350,6 +350,7 @@ def run(ctx, rep):
     balance.rule_bal(ctx, rep)
     balance.rule_unw(ctx, rep)
     rule_funnel(ctx, rep)
+    balance.rule_payload_dup(ctx, rep)  # a value read out bitwise while its handle is still armed is destroyed twice if something unwinds
     rule_destroy(ctx, rep)
     from . import c03
 
